@@ -1,11 +1,11 @@
 import ReplicatProofs.Lemmas.RepoCrashPlans
-import ReplicatProofs.Lemmas.LocalFS
+import ReplicatProofs.Lemmas.LocalUpload
 /-!
 # C03 — interrupted commands leave a consistent, usable repository   (PARTIAL: see the end of this comment)
 
 Objects: the mutation plans of `Repo.lean` (`planOf`: stages of backend mutations; inside a stage any completion order —
 `asyncio.gather` —, a stage starts only when the previous one is complete), `acceptsPrefix` (the traces a killed process can
-have produced: every prefix of every linearisation), `applyMuts` (the object map left behind); and `LocalFS.lean` (the local
+have produced: every prefix of every linearisation), `applyMuts` (the object map left behind); and `LocalUpload.lean` (the local
 backend's upload as file-system steps).
 
 `Consistent s` = WF ∧ every listed snapshot has every chunk of its table (∧ its files need only chunks of that table).
@@ -156,7 +156,7 @@ theorem destructive_plan_runs_command (enc : Bool) (s : Store) (u : User) (sids 
     | ok ns => simp only [flatten_cons, flatten_nil, append_nil, applyMuts_dels]
 
 /-! ## the local backend: upload = mkdir -p; mktemp *.tmp; write…; rename -/
-open Replicat.LocalFS in
+open Replicat.LocalUpload in
 /-- **Local uploads are atomic for every observer.**  After ANY prefix of the file-system steps of an upload (the payload
 written in arbitrary pieces) what `list_files` / `exists` / `download` show for names that are not temporaries is the old map or
 the new map — never a partial object; the new map appears exactly with the rename. -/
@@ -173,13 +173,13 @@ theorem upload_atomic (fs : FS) (dir name tmp : Path) (pieces : List Bytes) (htm
   · right
     intro n
     rw [take_of_length_le (by simp only [length_append, length_cons, length_nil]; omega), run_append]
-    simp only [LocalFS.run, foldl_cons, foldl_nil]
+    simp only [LocalUpload.run, foldl_cons, foldl_nil]
     have hl := lookup_prep fs dir tmp pieces
-    simp only [LocalFS.run] at hl
+    simp only [LocalUpload.run] at hl
     rw [vget_rename _ tmp name pieces.flatten htmp hname hl n]
     exact vget_putObj_congr fs _ name _ (fun n' => vget_run_tmpOnly fs tmp htmp _ (prepSteps_tmpOnly dir tmp pieces) n') n
 
-open Replicat.LocalFS in
+open Replicat.LocalUpload in
 /-- a failed attempt (any prefix of the preparation, then the cleanup `unlink`) is invisible, and temporaries are never listed;
 `exists` / `download` / `list_files` of non-temporary names are functions of the visible map -/
 theorem failed_attempt_invisible (fs : FS) (dir tmp : Path) (pieces : List Bytes) (htmp : isTmp tmp = true) (k : Nat) :
@@ -195,7 +195,7 @@ theorem failed_attempt_invisible (fs : FS) (dir tmp : Path) (pieces : List Bytes
     · exact prepSteps_tmpOnly dir tmp pieces st (mem_of_mem_take h)
     · simp only [mem_singleton] at h; subst h; rfl
   · intro fs' pre n
-    unfold LocalFS.listFiles vget
+    unfold LocalUpload.listFiles vget
     rw [mem_filter, ← lookup_isSome_iff]
     by_cases hn : isTmp n = true
     · simp [hn]
@@ -227,13 +227,13 @@ example :
     acceptsPrefix (planOf true s (.delete ⟨1, 1⟩ [7])) [.del (.chunk 1 3)] = false ∧
     acceptsPrefix (planOf true s (.delete ⟨1, 1⟩ [7])) [.del (.snap 1 7), .del (.chunk 1 3)] = true := by decide
 
-open Replicat.LocalFS in
+open Replicat.LocalUpload in
 /-- local upload: after the temporary is fully written but not renamed the old object is still what a reader gets -/
 example :
     let fs : FS := ⟨[("data/ab", [1])], []⟩
-    vget (LocalFS.run fs ((uploadSteps "data" "data/ab" "data/ab_x.tmp" [[2], [3]]).take 4)) "data/ab" = some [1] ∧
-    vget (LocalFS.run fs (uploadSteps "data" "data/ab" "data/ab_x.tmp" [[2], [3]])) "data/ab" = some [2, 3] ∧
-    LocalFS.listFiles (LocalFS.run fs ((uploadSteps "data" "data/ab" "data/ab_x.tmp" [[2], [3]]).take 4)) "data/" = ["data/ab"] := by
+    vget (LocalUpload.run fs ((uploadSteps "data" "data/ab" "data/ab_x.tmp" [[2], [3]]).take 4)) "data/ab" = some [1] ∧
+    vget (LocalUpload.run fs (uploadSteps "data" "data/ab" "data/ab_x.tmp" [[2], [3]])) "data/ab" = some [2, 3] ∧
+    LocalUpload.listFiles (LocalUpload.run fs ((uploadSteps "data" "data/ab" "data/ab_x.tmp" [[2], [3]]).take 4)) "data/" = ["data/ab"] := by
   decide +kernel
 
 end Replicat.C03
